@@ -27,6 +27,9 @@ Definition reported {F A} (o : outcome F) (res : result A) : Prop :=
   | CPanic => False
   end.
 
+(* the call handed back a result *)
+Definition is_ok {A} (x : result A) : Prop := exists a, x = COk a.
+
 (* the retrying methods, over the sequence of attempts *)
 Definition reported_seq {F A} (os : list (outcome F)) (res : result A) : Prop :=
   match res with
